@@ -5,7 +5,7 @@ SPEC = {
         "claim": {
             "category": "exploration",
             "technique": "placeholder",
-            "text": "placeholder After every ST::printf, however it ended, the FILE* is probed from a second thread (a stdio lock left behind is a violation); errno is preset to 0 / ERANGE / EINVAL / EDOM before every call; any ST_ASSERT is judged by the reference interpreter's prediction, never by its message.",
+            "text": "placeholder After every ST::printf, however it ended, the FILE* is probed from a second thread (a stdio lock left behind is a violation); errno is preset to 0 / ERANGE / EINVAL / EDOM before every call; any ST_ASSERT is judged by the reference interpreter's prediction, never by its message. Enumerated: one specifier of 18..250 flag bytes (six kinds of runs incl. pad pairs with control / high pad bytes) x ten endings x three argument lists. The process locale alternates between \"C\" and \"C.utf8\".",
             "level_note": "placeholder",
         },
         "assumptions": [],
